@@ -15,6 +15,11 @@ round 3: nested machine (`ncoherent_of_wf`, `nwf_all`, `flat_covers_nested_all`)
          translator-known public mutator of every class through derived invokers
          (harness/c01_generic.py: replay twin, recomputation after cache_clear(), Network-level
          fresh twin) and the coverage obligation.
+round 4: stored state under re-initialising mutators (`mode_no_leak`, `mode_wf_all` about the
+         assignment-event tables of translate/c01_mode.py; harness/c01_mode.py: structural
+         histories over ALL ordered pairs of mutators, constructor modes / variants and sampled
+         triples, prediction correspondence, coverage); raising calls (`ncoherent_with_exceptions`,
+         exact lru histories with raising calls through `xhist`).
 """
 import contextlib
 import inspect
@@ -26,6 +31,7 @@ import numpy as np
 
 from . import common
 from . import c01_generic as G
+from . import c01_mode as MD
 
 
 def quiet(fn, *a, **k):
@@ -145,8 +151,8 @@ NET_MUT = {
     "del_link_attribute": lambda o, rng: o.del_link_attribute("v"),
     "randomly_rewire": lambda o, rng: quiet(o.randomly_rewire, 5),
 }
-SUMMARY_NET = ["N", "n_links", "link_density", "total_node_weight", "mean_node_weight",
-               "adjacency", "node_weights"]
+SUMMARY_NET = ["N", "directed", "n_links", "link_density", "total_node_weight",
+               "mean_node_weight", "adjacency", "node_weights"]
 
 
 def spec_network():
@@ -249,14 +255,18 @@ def spec_climatenetwork():
                 summary=SUMMARY_NET + ["threshold()"], argsets={})
 
 
+RP_MODES = [("threshold_std", 0.75), ("recurrence_rate", 0.35), ("local_recurrence_rate", 0.4),
+            ("adaptive_neighborhood_size", 3)]
+
+
 def spec_recurrenceplot():
     from pyunicorn.timeseries import RecurrencePlot
 
-    def make(rng):
+    def make(rng, mode=("threshold", 1.25)):
         n = rng.choice([12, 15])
         ts = np.array([rng.randrange(0, 9) / 2 for _ in range(n)])
-        o = RecurrencePlot(ts, threshold=1.25, metric="supremum", silence_level=3)
-        o._verif = ("threshold", 1.25)
+        o = RecurrencePlot(ts, metric="supremum", silence_level=3, **{mode[0]: mode[1]})
+        o._verif = tuple(mode)
         o._verif_ts = ts
         return o
 
@@ -290,7 +300,7 @@ def spec_recurrenceplot():
     mut = {"set_fixed_threshold": st, "set_fixed_recurrence_rate": rr,
            "set_fixed_local_recurrence_rate": lrr, "set_adaptive_neighborhood_size": ans,
            "set_fixed_threshold_std": tstd}
-    return dict(cls=RecurrencePlot, make=make, twin=twin, mutators=mut,
+    return dict(cls=RecurrencePlot, make=make, twin=twin, mutators=mut, ctor_modes=RP_MODES,
                 summary=["N", "recurrence_matrix()", "recurrence_rate()", "determinism()",
                          "laminarity()", "max_diaglength()", "white_vertline_dist()"],
                 argsets={})
@@ -299,18 +309,24 @@ def spec_recurrenceplot():
 def spec_recurrencenetwork():
     from pyunicorn.timeseries import RecurrenceNetwork
 
-    def make(rng):
+    def make(rng, mode=("threshold", 1.25), variant=None):
         n = rng.choice([10, 12])
         ts = np.array([rng.randrange(0, 9) / 2 for _ in range(n)])
-        o = RecurrenceNetwork(ts, threshold=1.25, metric="supremum", silence_level=3)
-        o._verif = ("threshold", 1.25)
+        kw = {}
+        if variant == "missing_values":     # state vectors with missing values are left out of
+            ts[rng.randrange(1, n - 1)] = np.nan    # the network by the constructor
+            kw = {"missing_values": True}
+        o = RecurrenceNetwork(ts, metric="supremum", silence_level=3, **{mode[0]: mode[1]}, **kw)
+        o._verif_kw = kw
+        o._verif = tuple(mode)
         o._verif_ts = ts
         o._verif_explicit_w = False
         return o
 
     def twin(o):
         kind, val = o._verif
-        t = RecurrenceNetwork(o._verif_ts, metric=o.metric, silence_level=3, **{kind: val})
+        t = RecurrenceNetwork(o._verif_ts, metric=o.metric, silence_level=3, **{kind: val},
+                              **getattr(o, "_verif_kw", {}))
         if o._verif_explicit_w:
             t.node_weights = o.node_weights.copy()
         return t
@@ -344,7 +360,9 @@ def spec_recurrencenetwork():
                                             "set_fixed_threshold_std"),
            "set_fixed_local_recurrence_rate": other("local_recurrence_rate", (0.2, 0.4, 0.6),
                                                     "set_fixed_local_recurrence_rate")}
-    return dict(cls=RecurrenceNetwork, make=make, twin=twin, mutators=mut,
+    return dict(cls=RecurrenceNetwork, make=make, twin=twin, mutators=mut, ctor_modes=RP_MODES,
+                ctor_variants=[{"variant": "missing_values"},
+                               {"variant": "missing_values", "mode": ("local_recurrence_rate", 0.4)}],
                 summary=SUMMARY_NET + ["recurrence_matrix()", "recurrence_rate()",
                                        "determinism()", "laminarity()"],
                 argsets={})
@@ -450,7 +468,12 @@ def spec_surrogates():
         t = Surrogates(o.original_data.copy(), silence_level=3)
         t._normalized = o._normalized
         return t
-    mut = {"normalize_original_data": lambda o, rng: o.normalize_original_data()}
+    # the spec's twin is built from the current state (data + `_normalized`), so it is a fresh
+    # twin after ANY mutator; the two significance helpers normalise the data as a side effect
+    # (they assign the mode field `_normalized`)
+    mut = {"normalize_original_data": lambda o, rng: o.normalize_original_data(),
+           "original_distribution": G.GENERIC["original_distribution"][0],
+           "test_threshold_significance": G.GENERIC["test_threshold_significance"][0]}
     return dict(cls=Surrogates, make=make, twin=twin, mutators=mut,
                 summary=["original_data", "original_data_fft()",
                          # the delay embedding the twin search works on (recomputed by every
@@ -488,12 +511,12 @@ def spec_visibility():
 def spec_jointrecurrencenetwork():
     from pyunicorn.timeseries import JointRecurrenceNetwork
 
-    def make(rng):
+    def make(rng, mode=("threshold", (1.25, 1.75))):
         n = rng.choice([9, 11])
         x = np.array([rng.randrange(0, 9) / 2 for _ in range(n)])
         y = np.array([rng.randrange(0, 9) / 2 for _ in range(n)])
-        o = JointRecurrenceNetwork(x, y, threshold=(1.25, 1.75), silence_level=3)
-        o._verif = ("threshold", (1.25, 1.75))
+        o = JointRecurrenceNetwork(x, y, silence_level=3, **{mode[0]: mode[1]})
+        o._verif = tuple(mode)
         o._verif_ts = (x, y)
         return o
 
@@ -513,6 +536,7 @@ def spec_jointrecurrencenetwork():
         o.set_fixed_recurrence_rate(v)
         o._verif = ("recurrence_rate", v)
     return dict(cls=JointRecurrenceNetwork, make=make, twin=twin,
+                ctor_modes=[("recurrence_rate", (0.4, 0.3)), ("threshold_std", (0.75, 0.5))],
                 mutators={"set_fixed_threshold": st, "set_fixed_recurrence_rate": rr},
                 summary=["N", "n_links", "link_density", "adjacency", "recurrence_matrix()",
                          "recurrence_rate()", "determinism()", "laminarity()"], argsets={})
@@ -521,12 +545,12 @@ def spec_jointrecurrencenetwork():
 def spec_jointrecurrenceplot():
     from pyunicorn.timeseries import JointRecurrencePlot
 
-    def make(rng):
+    def make(rng, mode=("threshold", (1.25, 1.75))):
         n = rng.choice([10, 13])
         x = np.array([rng.randrange(0, 9) / 2 for _ in range(n)])
         y = np.array([rng.randrange(0, 9) / 2 for _ in range(n)])
-        o = JointRecurrencePlot(x, y, threshold=(1.25, 1.75), silence_level=3)
-        o._verif = ("threshold", (1.25, 1.75))
+        o = JointRecurrencePlot(x, y, silence_level=3, **{mode[0]: mode[1]})
+        o._verif = tuple(mode)
         o._verif_ts = (x, y)
         return o
 
@@ -552,6 +576,7 @@ def spec_jointrecurrenceplot():
         o.set_fixed_recurrence_rate(v)
         o._verif = ("recurrence_rate", v)
     return dict(cls=JointRecurrencePlot, make=make, twin=twin,
+                ctor_modes=[("recurrence_rate", (0.4, 0.3)), ("threshold_std", (0.75, 0.5))],
                 mutators={"set_fixed_threshold": st, "set_fixed_threshold_std": sts,
                           "set_fixed_recurrence_rate": rr},
                 summary=["N", "recurrence_matrix()", "recurrence_rate()", "determinism()",
@@ -561,12 +586,12 @@ def spec_jointrecurrenceplot():
 def spec_intersystem():
     from pyunicorn.timeseries import InterSystemRecurrenceNetwork
 
-    def make(rng):
+    def make(rng, mode=("threshold", (1.25, 1.75, 1.25))):
         nx, ny = rng.choice([6, 7]), rng.choice([5, 8])
         x = np.array([rng.randrange(0, 9) / 2 for _ in range(nx)])
         y = np.array([rng.randrange(0, 9) / 2 for _ in range(ny)])
-        o = InterSystemRecurrenceNetwork(x, y, threshold=(1.25, 1.75, 1.25), silence_level=3)
-        o._verif = ("threshold", (1.25, 1.75, 1.25))
+        o = InterSystemRecurrenceNetwork(x, y, silence_level=3, **{mode[0]: mode[1]})
+        o._verif = tuple(mode)
         o._verif_ts = (x, y)
         return o
 
@@ -587,6 +612,7 @@ def spec_intersystem():
         o.set_fixed_recurrence_rate(v)
         o._verif = ("recurrence_rate", v)
     return dict(cls=InterSystemRecurrenceNetwork, make=make, twin=twin,
+                ctor_modes=[("recurrence_rate", (0.4, 0.3, 0.5))],
                 mutators={"set_fixed_threshold": st, "set_fixed_recurrence_rate": rr},
                 summary=["N", "n_links", "link_density", "adjacency", "inter_system_recurrence_matrix()",
                          "internal_recurrence_rates()", "cross_recurrence_rate()",
@@ -781,11 +807,11 @@ def spec_eventseries():
 def spec_crossrecurrenceplot():
     from pyunicorn.timeseries import CrossRecurrencePlot
 
-    def make(rng):
+    def make(rng, mode=("threshold", 1.25)):
         x = np.array([rng.randrange(0, 9) / 2 for _ in range(rng.choice([8, 10]))])
         y = np.array([rng.randrange(0, 9) / 2 for _ in range(rng.choice([7, 9]))])
-        o = CrossRecurrencePlot(x, y, threshold=1.25, silence_level=3)
-        o._verif = ("threshold", 1.25)
+        o = CrossRecurrencePlot(x, y, silence_level=3, **{mode[0]: mode[1]})
+        o._verif = tuple(mode)
         o._verif_ts = (x, y)
         return o
 
@@ -816,6 +842,7 @@ def spec_crossrecurrenceplot():
         o._verif_ts = (x[:, 0].copy(), o._verif_ts[1])
         (st if rng.random() < 0.5 else rr)(o, rng)
     return dict(cls=CrossRecurrencePlot, make=make, twin=twin,
+                ctor_modes=[("recurrence_rate", 0.35)],
                 mutators={"set_fixed_threshold": st, "set_fixed_recurrence_rate": rr,
                           "y_embedded=;rethreshold": newy, "x_embedded=;rethreshold": newx},
                 summary=["N", "M", "recurrence_matrix()", "cross_recurrence_rate()", "balance()"],
@@ -859,7 +886,7 @@ def _climate_from_data(cls_name, knob, values, extra_kw=None, flip_kw=None):
         from pyunicorn.core import GeoGrid
         cls = getattr(C, cls_name)
 
-        def make(rng):
+        def make(rng, mode=("threshold", 0.4)):
             n, T = rng.choice([5, 6]), 36
             nprng = np.random.RandomState(rng.randrange(2 ** 31))
             obs = nprng.randn(T, n)
@@ -872,7 +899,8 @@ def _climate_from_data(cls_name, knob, values, extra_kw=None, flip_kw=None):
             nl = rng.random() < 0.5
             v = rng.choice(values)
             o = cls(C.ClimateData(observable=obs.copy(), grid=grid, time_cycle=12, silence_level=3),
-                    threshold=0.4, non_local=nl, silence_level=3, **{knob: v}, **(extra_kw or {}))
+                    non_local=nl, silence_level=3, **{mode[0]: mode[1]}, **{knob: v},
+                    **(extra_kw or {}))
             o._verif_obs, o._verif_grid, o._verif_knob = obs, grid, v
             return o
 
@@ -891,9 +919,11 @@ def _climate_from_data(cls_name, knob, values, extra_kw=None, flip_kw=None):
             "set_threshold": lambda o, rng: o.set_threshold(
                 rng.choice([t for t in (0.25, 0.35, 0.5, 0.6) if t != o.threshold()])),
             "set_non_local": lambda o, rng: o.set_non_local(not o.non_local()),
+            "set_link_density": lambda o, rng: o.set_link_density(rng.choice([0.3, 0.45, 0.6])),
             "set_" + knob: flip,
         }
         return dict(cls=cls, make=make, twin=twin, mutators=mut,
+                    ctor_modes=[("link_density", 0.45)],
                     summary=SUMMARY_NET + ["threshold()", "similarity_measure()", "non_local()"],
                     argsets={})
     return spec
@@ -1343,6 +1373,15 @@ def lru_history(ctx, tables, quick):
                 ops.append(f"m{oi}")
                 out.append("-")
                 continue
+            if r < 0.07:
+                # a raising call (no such link attribute): lru_cache stores nothing
+                try:
+                    net.path_lengths(link_attribute="no-such-attribute")
+                except Exception:  # noqa
+                    ops.append(f"x{mi}.999")
+                    out.append("-")
+                    ctx.count("Network:lru-history-raising-calls")
+                continue
             if r < 0.45 and recent:
                 k = rng.choice(recent[-rng.choice([3, 20, 33, 40]):])
             else:
@@ -1356,7 +1395,7 @@ def lru_history(ctx, tables, quick):
         ctx.case(("lru-history", rep, len(ops), nkeys), True)
         ctx.count("Network:lru-histories")
         ctx.count("Network:lru-history-ops", len(ops))
-        reqs.append("nhist Network " + ",".join(ops))
+        reqs.append("xhist Network " + ",".join(ops))
         impl.append(out)
     return reqs, impl
 
@@ -1462,6 +1501,20 @@ def _run(ctx):
     unexercised, n_mutators = [], 0
     edge_reqs, edge_obs = [], []
 
+    import time as _time
+    stage_s = {}
+
+    class _T:
+        def __init__(self, name):
+            self.name = name
+
+        def __enter__(self):
+            self.t0 = _time.time()
+
+        def __exit__(self, *a):
+            stage_s[self.name] = round(stage_s.get(self.name, 0.0) + _time.time() - self.t0, 2)
+    ctx.extra["stage_seconds"] = stage_s
+
     for cname, mk in SPECS.items():
         spec = mk()
         cls = spec["cls"]
@@ -1550,18 +1603,25 @@ def _run(ctx):
                              {"class": cname, "attribute": expr, "mutator": oname,
                               "observed": brief(a), "fresh": brief(b)})
         # ---- ordered pairs of mutators (round 3) ---------------------------------------------
-        two_step_histories(ctx, cname, spec, usable, quick)
+        with _T("two-step"):
+            two_step_histories(ctx, cname, spec, usable, quick)
+        # ---- round 4: ALL ordered pairs, constructor modes, triples: structure + summaries -----
+        with _T("structural"):
+            MD.structural_histories(ctx, cname, spec, quick, eval_summary, same, brief)
         # ---- every translator-known public mutator (round 3) --------------------------------
-        invokers, missing = derive_invokers(ctx, cname, spec, t)
-        unexercised += missing
-        done = generic_stage(ctx, cname, spec, t, usable, invokers, quick)
+        with _T("generic"):
+            invokers, missing = derive_invokers(ctx, cname, spec, t)
+            unexercised += missing
+            done = generic_stage(ctx, cname, spec, t, usable, invokers, quick)
         unexercised += [f"{cname}.{o} (never ran)" for o in invokers if o not in done]
         n_mutators += len(t.get("mutators", {}))
         # ---- translator sandwich -----------------------------------------------------------
-        nck, bad_sw = sandwich(ctx, cname, spec, t, usable, invokers)
+        with _T("sandwich"):
+            nck, bad_sw = sandwich(ctx, cname, spec, t, usable, invokers)
         sw_checked += nck
         sw_bad += bad_sw
-        r_, o_ = call_edges(ctx, cname, spec, mnames, usable, quick)
+        with _T("call-edges"):
+            r_, o_ = call_edges(ctx, cname, spec, mnames, usable, quick)
         edge_reqs += r_
         edge_obs += o_
         # ---- hit/miss correspondence: a fresh object per (query, mutator) -------------------
@@ -1649,6 +1709,9 @@ def _run(ctx):
                              {"class": cname, "attribute": expr, "history": trace,
                               "observed": brief(a), "fresh": brief(b)})
 
+    # ---- round 4: Lean mode tables vs the real objects ------------------------------------
+    gen = json.load(open(os.path.join(common.LEAN, "Pyunicorn", "Generated", "StructC01.json")))
+    MD.mode_tie(ctx, common, SPECS, gen, traced)
     # ---- nested model: call edges and the bounded lru cache -------------------------------
     ans = common.driver(ctx.pid, edge_reqs)
     bad_e = []
